@@ -792,6 +792,73 @@ fn stress_create_vs_sweep(pr: &PropRun) -> LaneReport {
     rep
 }
 
+/// Free-running stress: several threads make the *first* use of one shared, lazily hashed `Key` object (the
+/// `from_static_*` constructors memoise the hash on first use) at the same moment, through `get_or_create_*`.
+/// The name is long, so the first hash computation takes tens of microseconds and the others arrive inside it.
+/// Whatever they see of the memoisation, there must be one storage for the key, holding every operation, and an
+/// equal key built eagerly afterwards must reach it.
+fn stress_first_use_of_shared_key(pr: &PropRun) -> LaneReport {
+    static LONG: std::sync::OnceLock<&'static str> = std::sync::OnceLock::new();
+    static LABELS: [metrics::Label; 2] = [metrics::Label::from_static_parts("shard", "s"), metrics::Label::from_static_parts("zone", "z")];
+    let long: &'static str = LONG.get_or_init(|| Box::leak(format!("first_use_{}", "n".repeat(48 * 1024)).into_boxed_str()));
+    let start = std::time::Instant::now();
+    let mut rep = LaneReport::named("stress-first-use-of-a-shared-key");
+    let rounds = pr.cfg.cases(3_000, 60_000);
+    let nthreads = 4usize;
+    let mut bad: Option<(String, String)> = None;
+    for round in 0..rounds {
+        let shared = Arc::new(Shared::default());
+        let registry: Registry<Key, CountingStorage> = Registry::new(CountingStorage(shared.clone()));
+        let kind = (round % 3) as u8;
+        let key = if round % 2 == 0 { Key::from_static_name(long) } else { Key::from_static_parts(long, &LABELS) };
+        let go = std::sync::atomic::AtomicBool::new(false);
+        std::thread::scope(|s| {
+            for _ in 0..nthreads {
+                let (registry, go, key) = (&registry, &go, &key);
+                s.spawn(move || {
+                    while !go.load(Ordering::Acquire) {
+                        std::hint::spin_loop();
+                    }
+                    let _: u64 = by_kind!(kind, registry, get_or_create_counter, get_or_create_gauge, get_or_create_histogram, key, |s| s.value.fetch_add(1, Ordering::SeqCst));
+                });
+            }
+            go.store(true, Ordering::Release);
+        });
+        let values: Vec<u64> = match kind {
+            0 => registry.get_counter_handles().values().map(|s| s.value.load(Ordering::SeqCst)).collect(),
+            1 => registry.get_gauge_handles().values().map(|s| s.value.load(Ordering::SeqCst)).collect(),
+            _ => registry.get_histogram_handles().values().map(|s| s.value.load(Ordering::SeqCst)).collect(),
+        };
+        let mut visited = 0usize;
+        match kind {
+            0 => registry.visit_counters(|_, _| visited += 1),
+            1 => registry.visit_gauges(|_, _| visited += 1),
+            _ => registry.visit_histograms(|_, _| visited += 1),
+        }
+        let built = shared.built.lock().unwrap().len();
+        // an equal key built eagerly (hashed at construction) must find the same storage
+        let eager = if round % 2 == 0 { Key::from_name(long.to_string()) } else { Key::from_parts(long.to_string(), LABELS.to_vec()) };
+        let seen_by_eager: u64 = by_kind!(kind, registry, get_or_create_counter, get_or_create_gauge, get_or_create_histogram, &eager, |s| s.value.load(Ordering::SeqCst));
+        let built_after = shared.built.lock().unwrap().len();
+        let mut ctx = Ctx::default();
+        ctx.fingerprint = Some(round);
+        ctx.nontrivial("threads-race-the-first-hash-of-one-key-object");
+        if round == 0 {
+            ctx.desc = Some(format!("{} threads x get_or_create(&key, |s| s += 1) on one never-hashed Key::from_static_* object with a 48 KiB name", nthreads));
+        }
+        rep.account(ctx);
+        if built != 1 || visited != 1 || values != vec![nthreads as u64] || key.get_hash() != eager.get_hash() || seen_by_eager != nthreads as u64 || built_after != 1 {
+            bad = Some(("two-storages-for-one-key-object".into(), format!("round {} (kind {}): {} threads made the first use of one shared key object at once: {} storages were constructed, a visit shows {} entries holding {:?} operations (expected one entry holding {}), an equal eagerly hashed key sees {} and brings the storages built to {}; get_hash() of the shared key {:#x}, of the equal key {:#x}", round, kind, nthreads, built, visited, values, nthreads, seen_by_eager, built_after, key.get_hash(), eager.get_hash())));
+            break;
+        }
+    }
+    if let Some((sig, msg)) = bad {
+        rep.violations.push(Violation { lane: "stress-first-use-of-a-shared-key".into(), sig, msg, bytes: vec![], sched: vec![], decoded: "free-running threads (not deterministically replayable)".into() });
+    }
+    rep.wall_s = start.elapsed().as_secs_f64();
+    rep
+}
+
 /// Child process: the sequential lane under a CPU affinity mask (1/2/4/16 shards).
 pub fn child(seed: u64) -> i32 {
     let ncpu = [1usize, 2, 4, 16][(seed % 4) as usize];
@@ -845,6 +912,8 @@ pub fn run(cfg: &RunCfg, replay: Option<&str>) -> i32 {
     let r = stress_delete(&pr);
     pr.push(r);
     let r = stress_create_vs_sweep(&pr);
+    pr.push(r);
+    let r = stress_first_use_of_shared_key(&pr);
     pr.push(r);
     let r = crate::engine::child::run_children(&pr, "C06", "shard-count-processes", pr.cfg.cases(16, 400), |seed| format!("sequential lane with CPU affinity to {} cpus", [1, 2, 4, 16][(seed % 4) as usize]));
     pr.push(r);
